@@ -87,6 +87,13 @@ def _mask_case(job):
                 # (the centroid is given in micrometres)
                 v1 = vol.get_volume(c, cx * 0.34, cy * 0.34, 0.34)
                 v2 = vol.get_volume(c, cx * 0.68, cy * 0.68, 0.68)
+                # get_volume documents NaN only for contours of fewer than
+                # four points: with four or more the cone summation is a
+                # finite number (which the laws below then constrain)
+                if not (np.isfinite(v1) and np.isfinite(v2)):
+                    out.append(("volume of a contour with at least four "
+                                "points is not finite", "%d points: %s, %s"
+                                % (len(c), v1, v2)))
                 if v1 != 0 and np.isfinite(v1) and not near(v2, 8 * v1):
                     out.append(("volume does not scale with the cube of the "
                                 "pixel size", "%s vs %s" % (v2, 8 * v1)))
